@@ -436,6 +436,32 @@ func (p *Prog) GlobalInitFresh(g *ssa.Global) bool {
 	return n == 1 && ok
 }
 
+// GlobalInitBoxed reports whether an immutable interface-typed package-level variable is assigned exactly once, in its
+// package initialiser, with a value boxed from a pointer or struct (ssa.MakeInterface): such a value is never nil.
+func (p *Prog) GlobalInitBoxed(g *ssa.Global) bool {
+	if g.Pkg == nil || !p.ImmutableGlobal(g) {
+		return false
+	}
+	n, ok := 0, false
+	for _, m := range g.Pkg.Members {
+		fn, isF := m.(*ssa.Function)
+		if !isF || !strings.HasPrefix(fn.Name(), "init") {
+			continue
+		}
+		for _, b := range fn.Blocks {
+			for _, in := range b.Instrs {
+				if st, isSt := in.(*ssa.Store); isSt && st.Addr == ssa.Value(g) {
+					n++
+					if _, isMI := st.Val.(*ssa.MakeInterface); isMI {
+						ok = true
+					}
+				}
+			}
+		}
+	}
+	return n == 1 && ok
+}
+
 // GlobalInitConst returns the integer constant an immutable package-level variable is initialised with.
 func (p *Prog) GlobalInitConst(g *ssa.Global) (string, bool) {
 	if g.Pkg == nil || !p.ImmutableGlobal(g) {
